@@ -266,10 +266,21 @@ def cost_bound(case):
         memo[nm] = best + 2
         return memo[nm]
     mr = max([t for t, _ in case['roots']] or [0])
-    return min(mr + sum(cname(nm) for _, nm in case['roots']) + 8, 120)
+    return mr + sum(cname(nm) for _, nm in case['roots']) + 8
+
+
+MAXTICKS = 110
 
 
 def gen_case(rng, tier):
+    """programs whose static bound on the time to quiescence exceeds MAXTICKS are drawn again"""
+    while True:
+        case = gen_case1(rng, tier)
+        if case['n'] <= MAXTICKS:
+            return case
+
+
+def gen_case1(rng, tier):
     K = rng.randint(2, 5)
     H = {}
     want_roots = []
